@@ -45,7 +45,7 @@ def execute(ctx, cases, seed=None):
 
 def make_judge(ctx, count=True):
     def judge(rs):
-        shards = max(1, min(6, max(2, vlib.NCPU // 2), len(rs) // 500))
+        shards = max(1, min(6, max(2, vlib.NCPU // 2), len(rs) // 800))   # every shard is a TLC start + a slot
         bad = vlib.tlc_judge(ctx, JUDGE, "GeoJsonJudge.cfg", rs, shards=shards, timeout=1500)
         out = []
         for i, why, kf in bad:
@@ -115,9 +115,9 @@ def run(ctx):
         mc_cases.append(c)
     mc_cfg = "GeoJsonMC_%s.cfg" % tier
     # vlib admits TLC runs through a machine-wide slot budget (one slot per worker, all or nothing), so a run with
-    # many workers can wait a long time when other checks run side by side: the cases are dealt over a few
-    # independent TLC runs with two workers each instead.
-    mc_parts = 2 if ctx.quick() else 4
+    # several workers can wait minutes when other checks run side by side (measured: 150 s for two slots): the cases
+    # are dealt over independent single-worker TLC runs instead, each admitted as soon as any slot is free.
+    mc_parts = 2 if ctx.quick() else 6
     ctx.extra["model_checked_cases"] = len(mc_cases)
 
     def start_mc(k):
@@ -127,7 +127,7 @@ def run(ctx):
         with open(cf, "w") as f:
             for c in mc_cases[k::mc_parts]:
                 f.write(json.dumps(c, separators=(",", ":")) + "\n")
-        return Bg(lambda: vlib.tlc("GeoJsonMC", mc_cfg, sc, env={"CASES": cf}, workers=2, timeout=2400, heap="3g"))
+        return Bg(lambda: vlib.tlc("GeoJsonMC", mc_cfg, sc, env={"CASES": cf}, workers=1, timeout=2400, heap="2g"))
     mcs = [start_mc(k) for k in range(mc_parts)]
 
     build.get()
